@@ -72,7 +72,7 @@ theorem sampled_only (conf : Conf) (c : Chan) (op : Op)
   | _ =>
     exfalso
     apply h
-    simp only [step]
+    simp only [step, doDeliver]
     repeat' split
     all_goals first
       | rfl
@@ -129,7 +129,7 @@ theorem ephDrop_only_ephemeral (conf : Conf) (c : Chan) (op : Op) (h : c.ephemer
   | scanInFlight t => exact foldl_ephDrop _ timeoutOne_ephDrop _ _ h
   | scanDeferred t => exact foldl_ephDrop _ deferDueOne_ephDrop _ _ h
   | _ =>
-    simp only [step]
+    simp only [step, doDeliver]
     repeat' split
     all_goals first
       | exact ⟨rfl, h⟩
